@@ -27,4 +27,121 @@ def scenarios(tier):
 
 
 def run(tier, seed):
-    return run_property('C14', scenarios(tier), tier, seed)
+    import json
+    import os
+    from lib import evidence as _ev
+    from lib.evidence import Report, load_known
+    code1 = run_property('C14', scenarios(tier), tier, seed)
+    ev1 = json.load(open(os.path.join(_ev.OUT, 'evidence', 'C14.json')))
+    rep = Report('C14', tier, seed, clear_replays=False)
+    rep.assumptions = ev1.get('assumptions', []) + [
+        'helper functions: dictionaries and queries drawn by TLC from StatsHelpers.tla (exhaustive for a tiny key domain, random subsets of '
+        'up to 7 entries over 2 types x 3 times x 2 iterations x 3 restart counts x 2 processes otherwise), materialised with real Entry '
+        'keys; ticks are mapped to floats on four scales (offsets 0, 1024, 1e6, -3 with tick lengths 1, 2^-10, 1e-3, 1/8)',
+        'hook composition: see HookSets part']
+    rep.rule = ev1['coverage'].get('rule', '') + ' | synthetic part: cases = (dictionary, query); non-trivial = the query selects something'
+    known = load_known()
+    synthetic_part(rep, tier, seed)
+    hooksets_part(rep, tier, seed)
+    for k in ('clause_counts', 'trace_actions', 'traces_validated_against_impl', 'tv_batches', 'explore', 'gen', 'mc_violations', 'tlc_runs'):
+        rep.cov.setdefault('run_part', {})[k] = ev1['coverage'].get(k)
+    rep.states += ev1['coverage'].get('states', 0)
+    rep.transitions += ev1['coverage'].get('transitions', 0)
+    rep.traces += ev1['coverage'].get('traces_validated_against_impl', 0)
+    rep.evaluations = rep.traces
+    rep.distinct_nontrivial = ev1['coverage'].get('distinct_nontrivial', 0) + rep.cov.get('synthetic_nonempty_results', 0)
+    rep.samples += ev1['coverage'].get('samples', [])[:1]
+    for fid, n in (ev1.get('known_findings') or {}).items():
+        text = next((f['text'] for f in known['findings'] if f['id'] == fid), '')
+        rep.known[fid] = (n, text)
+    if code1 == 1:
+        rep.violation('run_part_summary', dict(kind='see the replay files C14_*.json written by the run part'))
+    elif code1 == 2:
+        rep.machinery.append('run part reported a machinery problem (see output above)')
+    return rep.finish()
+
+
+def hooksets_part(rep, tier, seed):
+    pass
+
+
+# ---- part 2: the helper functions on arbitrary synthetic dictionaries (StatsHelpers.tla) -------------------------------------
+SH_INVS = ['FilterIsSubset', 'Idempotent', 'NoRestartsNoLoss', 'OneGeneration']
+
+
+def _sh_tlc(args):
+    wd, consts, simulate, seed, export = args
+    import os
+    from lib import tlc
+    os.makedirs(wd, exist_ok=True)
+    cfg = os.path.join(wd, 'SH.cfg')
+    tlc.write_cfg(cfg, spec='Spec', constants=consts, invariants=SH_INVS + (['Export'] if export else []), check_deadlock=False)
+    return tlc.run_tlc('StatsHelpers', cfg, workers=1 if simulate else 8, timeout=1500, simulate=simulate, depth=3 if simulate else None,
+                       seed=seed if simulate else None, heap='6g')
+
+
+def _sh_compare(chunk):
+    from harness import stats_synth
+    bad = []
+    n = 0
+    for c in chunk:
+        for sc in stats_synth.SCALES:
+            n += 1
+            try:
+                p = stats_synth.compare(c, sc)
+            except Exception as e:  # noqa
+                from lib.errors import describe
+                p = ['error: ' + describe(e, 200)]
+            if p:
+                bad.append(dict(case=c, scale=list(sc), problems=p[:3]))
+    return bad, n
+
+
+def synthetic_part(rep, tier, seed):
+    import json
+    import multiprocessing as mp
+    import os
+    import shutil
+    import tempfile
+    scratch = tempfile.mkdtemp(prefix='verif_c14s_')
+    try:
+        small = dict(TYPES='{"a"}', TIMES='{0, 1}', ITERS='{0}', NRESTS='{0, 1}', PROCS='{0}', MAXE='2', RANDOM='FALSE')
+        big = dict(TYPES='{"a", "b"}', TIMES='{0, 1, 2}', ITERS='{0, 1}', NRESTS='{0, 1, 2}', PROCS='{0, 1}', MAXE='7', RANDOM='TRUE')
+        with mp.Pool(16) as pool:
+            jobs = [(os.path.join(scratch, 'ex'), small, None, 0, tier == 'thorough')]
+            nsim = 4 if tier == 'quick' else 16
+            for k in range(nsim):
+                jobs.append((os.path.join(scratch, f'sim{k}'), big, 1200 if tier == 'quick' else 4000, seed * 100 + k, True))
+            res = pool.map(_sh_tlc, jobs, chunksize=1)
+            seen = {}
+            for k, r in enumerate(res):
+                rep.add_tlc(r, 'StatsHelpers ' + ('exhaustive (tiny domain)' if k == 0 else f'simulation {k}'))
+                if r.violation:
+                    rep.violation('helpers.model.' + r.violation, dict(kind='model', module='StatsHelpers', tlc_error=r.error_text[:3000]))
+                elif not r.ok and k == 0:
+                    rep.machinery.append('StatsHelpers exhaustive run did not complete: ' + r.raw[-300:])
+                for c in r.prints:
+                    if isinstance(c, dict) and c.get('sh'):
+                        seen[json.dumps(c, sort_keys=True)] = c
+            cases = list(seen.values())
+            if not cases:
+                rep.machinery.append('StatsHelpers: no dictionary was generated')
+            chunks = [cases[i::32] for i in range(32)]
+            out = pool.map(_sh_compare, [ch for ch in chunks if ch], chunksize=1)
+        ncmp = 0
+        for bad, n in out:
+            ncmp += n
+            for b in bad:
+                what = b['problems'][0].split(':')[0]
+                if what == 'error':
+                    rep.problem('synthetic dictionary: ' + b['problems'][0], dict(kind='synthetic-stats', **b), clause='helpers.unexpected_library_error')
+                else:
+                    rep.violation('helpers.' + what, dict(kind='synthetic-stats', **b))
+        rep.traces += len(cases)
+        rep.cov['synthetic_dictionaries'] = len(cases)
+        rep.cov['synthetic_comparisons'] = ncmp
+        rep.cov['synthetic_nonempty_results'] = sum(1 for c in cases if c['filtered'])
+        rep.cov['synthetic_recomputed_filter_effective'] = sum(1 for c in cases if c['query']['recomputed'] == 'false' and len(c['filtered']) < len(
+            [e for e in c['dict'] if (c['query']['type'] in ('*', e['type']))]))
+    finally:
+        shutil.rmtree(scratch, ignore_errors=True)
